@@ -4,10 +4,15 @@
                                           model of the code for cells is the regenerated Gen.tagTable
     tag <rune>*                        → "<model>\t-"       rendering of parseTag (fixed code) + ws flag
     tablesum                           → "<counts of Gen.tagTable>\t-"
+    genv <root>                        → "<type graph of the row in Gen.graphTable>\t-"
+    gbuild <root>                      → "<model: does FromStruct return>\tbuilt"
+    graph <root> <how> <value tokens>  → "<Graph.Code.check>\t<Graph.Spec.vStruct>"
 -/
 import Gozod.Model.TagParser
 import Gozod.Model.Tags
 import Gozod.Gen.TagTable
+import Gozod.Model.TagGraph
+import Gozod.Gen.TagGraph
 namespace Gozod.Drv.C06
 open Gozod Gozod.Tags
 
@@ -63,7 +68,21 @@ def tableSum : String :=
     n + b.singles.foldl (fun m s => m + cnt s.2) 0 + b.pairs.foldl (fun m p => m + cnt p.2.2.1 + cnt p.2.2.2) 0) 0
   s!"blocks={Gen.tagTable.length} cells={cells} obs={obs} accepts={acc}"
 
+def findRow (name : String) : Option Graph.GRow := Gen.graphTable.find? (·.name == name)
+
 def handle : List String → String
+  | ["genv", root] =>
+    match findRow root with
+    | some r => Graph.envToken r.env ++ "\t-"
+    | none => "no-such-root\t-"
+  | ["gbuild", root] =>
+    match findRow root with
+    | some r => (if Graph.Code.builds r.env then "built" else "crash:stack-overflow") ++ "\tbuilt"
+    | none => "no-such-root\tbuilt"
+  | "graph" :: root :: _how :: toks =>
+    match findRow root, Graph.readVal (toks.length + 1) toks with
+    | some r, some (v, []) => b2s (Graph.Code.check r.env v) ++ "\t" ++ b2s (Graph.Spec.vStruct r.env 0 v)
+    | _, _ => "bad-op"
   | ["cell", _fty, rules, probe] =>
     match parseRules rules, Probe.ofString? probe with
     | some rs, some p => let s := b2s (Spec.accept rs p); s!"{s} {s}"
